@@ -230,6 +230,15 @@ func c08Func(fname string, params string, shape string, mode int, rng *rand.Rand
 			case 'v':
 				fmt.Fprintf(&sb, "  call %s\n", voidCallee())
 			case 'c':
+				if rng.Intn(4) == 0 {
+					// a result that is a pointer to a function, callee type in the short form
+					def("call void ()* @getfp()")
+					v := vals[len(vals)-1]
+					nameCtr++
+					fmt.Fprintf(&sb, "  %%pi%d = ptrtoint void ()* %s to i32\n", nameCtr, ref(v))
+					sb.WriteString(useLine(c08Val{"inst", -1, fmt.Sprintf("pi%d", nameCtr)}))
+					break
+				}
 				def("call " + intCallee())
 				sb.WriteString(useLine(vals[len(vals)-1]))
 			case 'I':
@@ -237,7 +246,11 @@ func c08Func(fname string, params string, shape string, mode int, rng *rand.Rand
 				terminated = true
 			case 'i':
 				id := numOf[[2]int{bi, ii}]
-				rhs := fmt.Sprintf("invoke %s to label %s unwind label %%lpad", intCallee(), nextLabel())
+				callee := intCallee()
+				if rng.Intn(4) == 0 {
+					callee = "void ()* @getfp()"
+				}
+				rhs := fmt.Sprintf("invoke %s to label %s unwind label %%lpad", callee, nextLabel())
 				if explicit() {
 					fmt.Fprintf(&sb, "  %%%d = %s\n", id, rhs)
 				} else {
@@ -539,7 +552,7 @@ func c08APIFuncPrintEditPrint(r *fw.Rec) {
 	}
 }
 
-const c08Prelude = "%vfn = type void ()\n%ifn = type i32 ()\ndeclare i32 @pers(...)\ndeclare void @vf()\ndeclare void @vv(...)\ndeclare i32 @if()\n@scratch = global i32 0\n"
+const c08Prelude = "%vfn = type void ()\n%ifn = type i32 ()\ndeclare i32 @pers(...)\ndeclare void @vf()\ndeclare void @vv(...)\ndeclare i32 @if()\ndeclare void ()* @getfp()\n@scratch = global i32 0\n"
 
 func c08FuncBatch(r *fw.Rec, shapes []string, base int) {
 	rng := r.Ctx().Rand(fmt.Sprintf("c08/%d", base))
@@ -737,7 +750,11 @@ func c08CheckFunc(r *fw.Rec, f *ir.Func, shape, mode string, vals []c08Val, text
 				}
 			case *ir.InstStore:
 				if g, ok := x.Dst.(*ir.Global); ok && strings.HasPrefix(g.GlobalName, "sink") {
-					stored = append(stored, x.Src)
+					if pti, ok := x.Src.(*ir.InstPtrToInt); ok {
+						stored = append(stored, pti.From) // function-pointer results are stored through a ptrtoint
+					} else {
+						stored = append(stored, x.Src)
+					}
 				}
 			}
 		}
